@@ -284,6 +284,7 @@ VARIANTS["C03"] = [
         "            faces = set(faces)  # get unique subfaces\n            existing = set(self._edge.values())\n            for members in faces:\n                # check that it does not exist yet (based on members, not ID)\n                if not members or frozenset(members) in existing:\n                    continue\n\n                self._add_face(members)\n                existing.add(frozenset(members))\n\n            return",
     ),
     R("subfaces-ascending-range", SC, "            for n in range(size, 2, -1):\n                for face in combinations(simplex, n - 1):\n                    faces.append(face)", "            for k in range(2, size):\n                for face in combinations(simplex, k):\n                    faces.append(face)"),
+    M("close-computes-faces-but-never-adds-them", SC, "                new_faces = self._subfaces(simplex)\n                self.add_simplices_from(new_faces)", "                new_faces = self._subfaces(simplex)", "S-CLOSE", "close"),
 ]
 
 # --------------------------------------------------------------------------- C06
@@ -308,6 +309,8 @@ VARIANTS["C06"] = [
     R("filterby-flipped-operands", VW, "            bunch = [idx for idx in self if values[idx] < val]\n        elif mode == \"gt\":", "            bunch = [idx for idx in self if val > values[idx]]\n        elif mode == \"gt\":"),
     R("aslist-from-asdict", ST, "        val = self._val\n        return [val[n] for n in self.view]\n\n    def asnumpy(self):\n        \"\"\"Output the stat as a numpy array.\"\"\"", "        return list(self.asdict().values())\n\n    def asnumpy(self):\n        \"\"\"Output the stat as a numpy array.\"\"\""),
     R("clear_edges-in-place-loop", HG, "        for node in self.nodes:\n            self._node[node] = set()\n        self._edge.clear()", "        for node in self._node:\n            self._node[node] = set()\n        self._edge.clear()"),
+    M("from_view-forgets-bi-id-dict", "xgi/core/views.py", "        newview._bi_id_dict = view._bi_id_dict\n", "", "V-LIVE", "from_view"),
+    M("sources-drops-e", "xgi/core/views.py", "        return self.tail(e=e, dtype=dtype)", "        return self.tail(dtype=dtype)", "V-FWD", "sources"),
 ]
 
 # --------------------------------------------------------------------------- C07
@@ -347,6 +350,9 @@ VARIANTS["C05"] = [
     M("add_nodes_from-shared-kwargs", HG, "                newdict = attr.copy()\n                newdict.update(ndict)\n            if newnode:\n                self._node[n] = set()", "                newdict = attr\n                newdict.update(ndict)\n            if newnode:\n                self._node[n] = set()", "E-LOOPALIAS", "Hypergraph.add_nodes_from"),
     R("remove_node_from_edge-guards-reordered", HG, "        if edge not in self._edge:\n            raise XGIError(f\"Edge {edge} not in the hypergraph\")\n        elif node not in self._node:\n            raise XGIError(f\"Node {node} not in the hypergraph\")", "        if node not in self._node:\n            raise XGIError(f\"Node {node} not in the hypergraph\")\n        elif edge not in self._edge:\n            raise XGIError(f\"Edge {edge} not in the hypergraph\")"),
     R("add_nodes_from-dict-merge-form", HG, "                newdict = attr.copy()\n                newdict.update(ndict)\n            if newnode:\n                self._node[n] = set()", "                newdict = {**attr, **ndict}\n            if newnode:\n                self._node[n] = set()"),
+    M("add_node_to_edge-directions-exchanged-consistently", "xgi/core/dihypergraph.py", "        if direction == \"in\":\n            ed = \"in\"\n            nd = \"out\"\n        elif direction == \"out\":\n            ed = \"out\"\n            nd = \"in\"\n        else:\n            raise XGIError(\"Invalid direction!\")\n\n        if edge not in self._edge:\n            self._edge[edge]", "        if direction == \"in\":\n            ed = \"out\"\n            nd = \"in\"\n        elif direction == \"out\":\n            ed = \"in\"\n            nd = \"out\"\n        else:\n            raise XGIError(\"Invalid direction!\")\n\n        if edge not in self._edge:\n            self._edge[edge]", "E-DIR", "add_node_to_edge"),
+    M("clear-keeps-net-attrs-always", HG, "        if remove_net_attr:\n            self._net_attr.clear()\n\n    def clear_edges", "        if remove_net_attr:\n            pass\n\n    def clear_edges", "E-FOOT", "clear"),
+    M("update-nodes-branch-negated", HG, "        if nodes:\n            self.add_nodes_from(nodes)", "        if not nodes:\n            self.add_nodes_from(nodes)", "E-ALIAS", "update"),
 ]
 
 # --------------------------------------------------------------------------- C09
@@ -494,6 +500,8 @@ VARIANTS["C19"] = [
     M("relabel-stores-new-label", UT, "    net.set_edge_attributes({idx: {label_attribute: e} for e, idx in edge_dict.items()})", "    net.set_edge_attributes({idx: {label_attribute: idx} for e, idx in edge_dict.items()})", "Q-LABEL", "convert_labels_to_integers"),
     R("cleanup-merge-after-singletons", HG, "        if not multiedges:\n            _H.merge_duplicate_edges()\n        if not singletons:\n            _H.remove_edges_from(_H.edges.singletons())", "        if not singletons:\n            _H.remove_edges_from(_H.edges.singletons())\n        if not multiedges:\n            _H.merge_duplicate_edges()"),
     R("cleanup-component-first", SC, "        if not isolates:\n            _S.remove_nodes_from(_S.nodes.isolates())\n        if connected:\n            from ..algorithms import largest_connected_hypergraph\n\n            largest_connected_hypergraph(_S, in_place=True)", "        if connected:\n            from ..algorithms import largest_connected_hypergraph\n\n            largest_connected_hypergraph(_S, in_place=True)\n        if not isolates:\n            _S.remove_nodes_from(_S.nodes.isolates())"),
+    M("lshift-drops-own-nodes", HG, "        tempH.add_nodes_from(zip(self._node.keys(), self._node_attr.values()))\n", "", "Q-UNION", "__lshift__"),
+    M("dual-drops-nodes-from-edges", HG, "        dual.add_nodes_from((e, deepcopy(attr)) for e, attr in ee.items())\n", "", "Q-DUAL", "dual"),
 ]
 
 # --------------------------------------------------------------------------- historical regression
